@@ -19,8 +19,9 @@ RULE = (
     "login), delay of their PeerTransferReply 2/70/300 ms, control connection kept open or closed after each request "
     "so that the client must connect first (2 ms / 120 ms): INITIALIZING spans 0..10 management cycles; optionally a "
     "flaw of the FIRST negotiation attempt only: first PeerTransferRequest never answered (reply timeout after 30 s) "
-    "| peer not connectable for the first file connection (direct refused, indirect CannotConnect) | first file "
-    "connection closed before the offset -- the client re-queues the upload from inside its negotiation task and "
+    "| peer not connectable for the first file connection (direct refused, indirect CannotConnect) "
+    "| one of the first three file connections cut after the ticket: 0..7 of the 8 offset bytes, then clean EOF or "
+    "reset -- the client re-queues the upload from inside its negotiation task and "
     "has to start it again, possibly with nothing else happening afterwards), initial "
     "slot limit 0..4, upload bandwidth 1..4 KiB/s (uploads last 0.1..6 s of virtual time) and a history of <= 14 "
     "events: queue request (PeerTransferQueue from user u for file f; also re-queues COMPLETE/FAILED uploads), a "
@@ -43,14 +44,16 @@ RULE = (
     "OFFLINE, without an active upload and of strictly higher class (privileged > friend > online/away > unknown, as "
     "known at the decision) was passed over (= none of b's uploads changed state before the next cycle); ties "
     "unconstrained; (6) after the quiet period, in no 2 s window without any state change does a QUEUED upload of a "
-    "not-offline user without active upload exist while a slot is free. Non-trivial = at some "
+    "not-offline user without active upload exist while a slot is free -- where an INITIALIZING/UPLOADING upload "
+    "that no task negotiates or sends any more (task handle None or done for the whole window) does not count as "
+    "occupying a slot or as the one upload of its user. Non-trivial = at some "
     "management cycle more eligible users had a QUEUED upload than slots were free; distinct = (population, initial "
     "limit, event-kind sequence)."
 )
 ASSUMPTIONS = [
     "in-memory TCP (ordered, lossless, latency 1 ms) and a protocol-level server model; scripted downloaders follow "
     "the transfer negotiation honestly except for the generated refusal / early close / reset and the generated "
-    "first-attempt flaw (unanswered request, unreachable for the file connection, hang-up before the offset), after "
+    "first-attempt flaw (unanswered request, unreachable for the file connection, file connection cut before / inside the offset), after "
     "which they behave; peers that stay silent or unreachable for ever are outside the domain",
     "the start of an upload is attributed to the most recent manage_transfers call at which it was QUEUED (the "
     "decision instant); limit and user knowledge are read at that instant from the client's own objects, never from "
@@ -81,8 +84,10 @@ CONNECT_DELAY = {'keep': 0.002, 'drop': 0.002, 'drop-slow': 0.120}
 #   silent-once      : the first PeerTransferRequest is never answered (reply timeout after 30 s)
 #   unreachable-once : after the first positive reply the peer cannot be connected to (direct connect refused,
 #                      indirect request answered by CannotConnect) until the client asks again
-#   eof-once         : the first file connection is closed after the ticket, before the offset is sent
-FLAWS = ['none', 'silent-once', 'unreachable-once', 'eof-once']
+#   offset-cut       : the cut_at-th (1..3) file connection of this downloader is cut after the ticket: cut_n (0..7)
+#                      of the 8 offset bytes are sent, then a clean close (EOF) or a reset; cut_n = 0 + EOF is the
+#                      clean close before a single offset byte
+FLAWS = ['none', 'silent-once', 'unreachable-once', 'offset-cut']
 SPEEDS = [1, 2, 4]
 # carrier of a run-time limit change: settings.transfers.limits.upload_slots = n | settings.transfers.limits =
 # TransferLimitSettings(upload_slots=n) | settings.transfers = <copy of the section with new limits> (all three are
@@ -149,7 +154,10 @@ def case_strategy(draw):
             'priv': draw(st.integers(0, 3)) == 0,
             'reply': draw(st.sampled_from([0, 0, 1, 2])),
             'link': draw(st.sampled_from([0, 0, 1, 2])),
-            'flaw': draw(st.sampled_from([0, 0, 0, 1, 2, 3])),
+            'flaw': draw(st.sampled_from([0, 0, 0, 1, 2, 3, 3])),
+            'cut_n': draw(st.sampled_from([0, 0, 0, 1, 3, 7])),
+            'cut_reset': draw(st.integers(0, 3)) == 0,
+            'cut_at': draw(st.sampled_from([1, 1, 2, 3])),
         })
     sizes = draw(st.lists(st.sampled_from([400, 1100, 1600, 2500, 4000, 6000]), min_size=1, max_size=3))
     n_burst = draw(st.integers(1, 6))
@@ -188,7 +196,9 @@ def _sanitise(case):
                       'friend': bool(u.get('friend')), 'priv': bool(u.get('priv')),
                       'reply': _int(u.get('reply'), 0, len(REPLY_DELAYS) - 1),
                       'link': _int(u.get('link'), 0, len(LINK_MODES) - 1),
-                      'flaw': _int(u.get('flaw'), 0, len(FLAWS) - 1)})
+                      'flaw': _int(u.get('flaw'), 0, len(FLAWS) - 1),
+                      'cut_n': _int(u.get('cut_n'), 0, 7), 'cut_reset': bool(u.get('cut_reset')),
+                      'cut_at': _int(u.get('cut_at'), 1, 3, 1)})
     if not users:
         return None
     sizes = [_int(s, 200, 8000, 1100) for s in (case.get('sizes') if isinstance(case.get('sizes'), list) else [])][:3]
@@ -555,8 +565,18 @@ class Observer:
         self.limit_seq = self.seq
 
     # -- bounded liveness --------------------------------------------------------
-    def stuck(self):
-        states = {k: self.state_of(k) for k in self.uploads}
+    def dead_active(self):
+        """Uploads that occupy a slot (INITIALIZING / UPLOADING) although no task is negotiating or sending them."""
+        out = []
+        for k in self.uploads:
+            if self.state_of(k) in ACTIVE:
+                task = self.uploads[k]._transfer_task
+                if task is None or task.done():
+                    out.append(k)
+        return sorted(out)
+
+    def stuck(self, ignore=()):
+        states = {k: self.state_of(k) for k in self.uploads if k not in ignore}
         active_users = {k[0] for k, s in states.items() if s in ACTIVE}
         n_active = sum(1 for s in states.values() if s in ACTIVE)
         limit = self.client.settings.transfers.limits.upload_slots
@@ -593,14 +613,16 @@ def _slow_file_close(down, path, delay):
     return True
 
 
-def _install_flaw(world, down, flaw, res):
-    """Make the FIRST negotiation attempt with this downloader fail in a way that sends the upload back to QUEUED;
-    later attempts are served normally. Everything stays recorded by the ScriptedDownloader."""
+def _install_flaw(world, down, flaw, res, params):
+    """Make ONE negotiation attempt with this downloader (the first; for 'offset-cut' the cut_at-th file connection)
+    fail in a way that sends the upload back to QUEUED; the other attempts are served normally. Everything stays
+    recorded by the ScriptedDownloader."""
     if flaw == 'none':
         return
+    import struct
     M = simworld.M()
     peer = down.peer
-    st_ = {'armed': True, 'blocked': False}
+    st_ = {'armed': True, 'blocked': False, 'fconn': 0}
     orig_on_message = down._on_message
     orig_on_file_data = down._on_file_data
 
@@ -633,11 +655,23 @@ def _install_flaw(world, down, flaw, res):
         orig_on_message(link, msg)
 
     def on_file_data(link):
-        if st_['armed'] and flaw == 'eof-once' and getattr(link, 'attempt', None) is None and len(link.raw) >= 4:
-            st_['armed'] = False
-            res.label('flaw-fired:' + flaw)
-            link.ep.close()                     # ticket received, hang up before sending the offset
-            return
+        if flaw == 'offset-cut' and getattr(link, 'attempt', None) is None and len(link.raw) >= 4 \
+                and not getattr(link, 'counted', False):
+            link.counted = True
+            st_['fconn'] += 1
+            if st_['armed'] and st_['fconn'] == params['cut_at']:
+                # ticket received: send cut_n bytes of the offset, then hang up (clean EOF) or reset
+                st_['armed'] = False
+                n = params['cut_n']
+                how = 'reset' if params['cut_reset'] else 'eof'
+                res.label(f'flaw-fired:offset-cut:{how}:{"0" if n == 0 else "1-7"}-bytes')
+                if n:
+                    link.ep.send(struct.pack('<Q', 0)[:n])
+                if params['cut_reset']:
+                    link.ep.reset()
+                else:
+                    link.ep.close()
+                return
         orig_on_file_data(link)
 
     peer.on_message = on_message
@@ -676,7 +710,7 @@ def run_case(case) -> CaseResult:
             delay = CONNECT_DELAY[LINK_MODES[u['link']]]
             d = xfer.ScriptedDownloader(world, n, direct_delay=delay, indirect_delay=delay)
             d.reply_delay = REPLY_DELAYS[u['reply']]
-            _install_flaw(world, d, FLAWS[u['flaw']], res)
+            _install_flaw(world, d, FLAWS[u['flaw']], res, u)
             downs[n] = d
             su = world.server.users[n]
             su['status'] = STATUS_CODE.get(u['status'], 2)
@@ -860,7 +894,9 @@ def run_case(case) -> CaseResult:
         undecided = False
         while True:
             stuck = obs.stuck()
-            if not stuck and not obs.active_keys():
+            dead = obs.dead_active()
+            blocked = obs.stuck(ignore=dead) if dead and not stuck else []
+            if not stuck and not blocked and len(obs.active_keys()) == len(dead):
                 break                       # nothing runs, nothing eligible waits for a free slot
             if rounds >= DRAIN_ROUNDS:
                 undecided = True
@@ -868,6 +904,18 @@ def run_case(case) -> CaseResult:
             rounds += 1
             before = len(obs.trans)
             await asyncio.sleep(2.0)
+            if blocked and len(obs.trans) == before and obs.dead_active() == dead \
+                    and obs.stuck(ignore=dead) == blocked:
+                limit = client.settings.transfers.limits.upload_slots
+                states = sorted({obs.state_of(k) for k in dead})
+                obs.violate(
+                    f'C05/eligible-upload-not-started:slot-held-by-{"+".join(states)}-upload-without-task',
+                    f'{[(k[0], k[1][-6:], obs.user_info(k[0])) for k in blocked]} stay QUEUED (limit {limit}) because '
+                    f'{[(k[0], k[1][-6:], obs.state_of(k)) for k in dead]} keep(s) a slot / the one upload of the user '
+                    f'although no task negotiates or sends it any more (task handle None or done); no state change '
+                    f'during the last 2 s, {round(loop.time() - t_quiet, 3)} s after the last external event; '
+                    f'loop errors: {[e.get("exc_type") for e in loop.errors[:3]]}')
+                break
             if stuck and len(obs.trans) == before and obs.stuck() == stuck:
                 limit = client.settings.transfers.limits.upload_slots
                 # root cause tag: the last decision was taken under a smaller limit than the current one, i.e. no
@@ -887,6 +935,7 @@ def run_case(case) -> CaseResult:
         obs.check_requests(downs)
         obs.check_told(told, world.server.frames)
         out['final_states'] = {k: obs.state_of(k) for k in obs.uploads}
+        out['dead_end'] = obs.dead_active()
         await client.stop()
 
     try:
@@ -925,6 +974,8 @@ def run_case(case) -> CaseResult:
         res.label('final:' + s)
     if any(n > 1 for n in obs.starts.values()):
         res.label('restarted-upload')
+    if out.get('dead_end'):
+        res.label('active-upload-without-task-at-end')
     if any(old == 'INITIALIZING' and new == 'QUEUED' for _, _, _, old, new in obs.trans):
         res.label('requeued-by-failed-negotiation')
     batch = max([len(sn['started']) for sn in obs.cycles] or [0])
